@@ -162,25 +162,25 @@ CHECKS = {
 
 # dimensions added after the three waves of independent seeded changes (DESIGN.md 10.9, 10.10); appended to the texts above
 ADDENDA = {
- "C01": " Also in the grammar: two parametrisations of one generic TypedDict / NamedTuple in one field, two plain dataclasses referring to each other, the builtins list / dict without parameters, rarer leaf values (CR LF text, scoped IPv6, 1e16, infinite Decimal).",
+ "C01": " Also in the grammar: two parametrisations of one generic TypedDict / NamedTuple in one field, two plain dataclasses referring to each other, the builtins list / dict without parameters, rarer leaf values (CR LF text, scoped IPv6, 1e16, infinite Decimal). Eight patterns of inheritance from generic bases (same / swapped parameter order, partial specialisation, nested arguments), generic classes that refer to their own specialisation.",
  "C02": " Also: the plain to_dict() of a holder built on a format mixin must stay the default basic form.",
  "C03": " Also: from_dict of a holder built on the orjson / msgpack mixin (depth <= 1).",
- "C04": " Also: two ORJSON classes with different Config.orjson_options defined one after the other (5 options x 3 compile styles each, first call with or without an explicit orjson_options=; absolute oracle orjson.dumps(..., option=own); forked per unit), and a subclass instance in a base-typed field through every format mixin (4 shapes x 2 call orders).",
- "C05": " Also: a subclass of a forbid_extra_keys parent that has a field of its own.",
- "C06": " Also: 252 tuple types with an unpacked part (nested one level, variadic) generated from a grammar.",
- "C07": " Also: inherited fields re-declared as a bare class-body default, an init=False member re-declared as a parameter, three-level hierarchies.",
+ "C04": " Also: two ORJSON classes with different Config.orjson_options defined one after the other (5 options x 3 compile styles each, first call with or without an explicit orjson_options=; absolute oracle orjson.dumps(..., option=own); forked per unit), and a subclass instance in a base-typed field through every format mixin (4 shapes x 2 call orders). Strings that look like syntax of the format (12 strings x 5 positions x 5 formats); what TOML can represent is decided per value by a reference rule, not skipped wholesale.",
+ "C05": " Also: a subclass of a forbid_extra_keys parent that has a field of its own. Failures nested below the reported field: a self-referential class corrupted one to three levels down, a bad element in a list of unions (mixin and codec).",
+ "C06": " Also: 252 tuple types with an unpacked part (nested one level, variadic) generated from a grammar. Annotated constraints (17 targets x conforming / violating instances), a SerializationStrategy-typed field validated with the serializer's own output, forward references inside NamedTuple / TypedDict members.",
+ "C07": " Also: inherited fields re-declared as a bare class-body default, an init=False member re-declared as a parameter, three-level hierarchies. Optional fields whose default is falsy but not None (0, empty list).",
  "C08": " Also: nested classes whose code-generation flags differ from the outer class (56 uneven pairs), tuple-defaulted fields (one item, enum member, nested).",
- "C09": " Also: fields split over a parent and a subclass, and a grandparent declaring the field under another alias that the parent re-declares.",
+ "C09": " Also: fields split over a parent and a subclass, and a grandparent declaring the field under another alias that the parent re-declares. A parent whose allow_deserialization_not_by_alias differs from the subclass's.",
  "C10": " Also: one-direction dict registrations (per-direction winner over 7-8 slots), use_annotations strategies competing with plain ones, three registered / unregistered types inside one field with an engine name.",
- "C11": " Also: scalar members behind NewType / Annotated chains up to three deep.",
- "C12": " Also: the hierarchy built on the orjson mixin with from_dict / from_json interleaved, an abstract intermediate class, and the invariant that the user's Discriminator object stays as written.",
- "C13": " Also: the format-mixin family (dict / orjson / msgpack calls interleaved), a family with TypedDict / NamedTuple-with-default / Union fields, and dialect options written on a parent Dialect class.",
- "C14": " Also: a class-level discriminator family (histories and three thread harnesses on its tag registry), helper-method kinds, an explicit encoder argument on a first call.",
- "C15": " Also: one-shot functions called in sequence with equal-but-different shapes (order-permuted unions, 21 member pairs x 4 spellings).",
+ "C11": " Also: scalar members behind NewType / Annotated chains up to three deep. Recursive type aliases (declaration order x 9 values), NamedTuple members under namedtuple_as_dict.",
+ "C12": " Also: the hierarchy built on the orjson mixin with from_dict / from_json interleaved, an abstract intermediate class, and the invariant that the user's Discriminator object stays as written. Two discriminated fields over one hierarchy in one codec, a tagger function returning None for one class.",
+ "C13": " Also: the format-mixin family (dict / orjson / msgpack calls interleaved), a family with TypedDict / NamedTuple-with-default / Union fields, and dialect options written on a parent Dialect class. Generic classes and late-defined classes in the histories; codecs with direct / inherited / split dialects against an absolute anchor, including a bytes field under msgpack.",
+ "C14": " Also: a class-level discriminator family (histories and three thread harnesses on its tag registry), helper-method kinds, an explicit encoder argument on a first call. A family whose last class is defined by an operation of the history (forward reference resolved late); thorough tier: one depth-4 search per first operation, 32 shards per bound-2 schedule harness.",
+ "C15": " Also: one-shot functions called in sequence with equal-but-different shapes (order-permuted unions, 21 member pairs x 4 spellings). Tuple types with a first / last union member and sibling fields.",
  "C16": " Also: Literal strings as arguments of twin specialisations of a generic dataclass, and long strings.",
- "C17": " Also: distinct classes with the same __qualname__ in two modules or non-ASCII names of equal length (fields, tuple, union, list, generic arguments), a generic base specialised with a local class, every depth-2 schema with a user class under a wrapper.",
- "C18": " Also: two sources of no_copy_collections at once (10 listing pairs), the builtins list / dict without parameters, and a decode-side check that excludes only the Any zones.",
- "C19": " Also: lazily compiled and postponed class trees, and variants of a Config-discriminator hierarchy that inherit the hooks.",
+ "C17": " Also: distinct classes with the same __qualname__ in two modules or non-ASCII names of equal length (fields, tuple, union, list, generic arguments), a generic base specialised with a local class, every depth-2 schema with a user class under a wrapper. Twins behind forward references.",
+ "C18": " Also: two sources of no_copy_collections at once (10 listing pairs), the builtins list / dict without parameters, and a decode-side check that excludes only the Any zones. mappingproxy-typed fields (seen through gc referents), call-level vs Config vs orjson-dialect routes in pairs.",
+ "C19": " Also: lazily compiled and postponed class trees, and variants of a Config-discriminator hierarchy that inherit the hooks. A hook-less intermediate class between two hooked ones.",
  "C20": " Also: BFS over build_json_schema(T, context=shared, **override) sequences on one user Context (differential against a fresh equal Context + the Context stays as written).",
 }
 for _k, _v in ADDENDA.items():
